@@ -277,6 +277,10 @@ def tree_check(sep):
             fails.append({"clause": "slots-named-by-position", "step": info["i"], "op": op,
                           "expected": "slot i of every List is named str(i)",
                           "observed": [[getattr(getattr(m, "parent", None), "name", None) for m in l] for l in _lists_of(ex)]})
+        # a sort that raised inside a COMPARISON leaves the List rearranged (round m1): same members, slots named by
+        # CURRENT position, name paths through the current index (the clauses above see the whole tree; this one names
+        # the call)
+        fails.extend(G.check_sort_failure(ex, info))
         for f in fails:
             f["causes"] = list(causes)
         return fails
@@ -309,7 +313,16 @@ def _tree_schema(rng, cid):
                         kinds=["list", "list", "list", "dict", "sparse", "array", "multi"])
 
 
+SORT_FAILURE_SHARE = 0.05
+
+
 def gen_tree_case(rng):
+    if rng.random() < SORT_FAILURE_SHARE:
+        # a keyed sort whose COMPARISON raises (round m1; oracle only — the tree model's keyed sort sorts or answers
+        # `unsupported`): CPython leaves the slots rearranged, flatten() must name every leaf by its CURRENT position
+        case = G.gen_sort_failure_case(rng)
+        case["family"], case["sep"] = "tree-history", rng.choice(TREE_SEPS)
+        return case
     cid = G.Counter()
     schema = _tree_schema(rng, cid)
     hostile = rng.random() < 0.1
@@ -365,9 +378,13 @@ class C07(Property):
                   "every list operation with its renumbering): `flattenTree` builds each key from the stored slot names as Element.flatten/flattened_name do; "
                   "`flattenTree_positional`: on every tree all of whose Lists name their slots by position it equals the positional specification "
                   "(`specFlatten`, keys from positions) pair for pair; `flatten_positional_history` / `flatten_positional_after_every_step`: that invariant — hence the equality — "
-                  "holds after every step of every history of the modelled calls (append/extend/+=/insert/item and slice assignment and deletion/pop/remove/"
-                  "reverse/sort/*=/clear/set/set_default and every dict-protocol call, successful or raising, on any element of a tree of any depth) from any "
-                  "constructed tree; `flattenTree_eq_flat`: on such trees flattenTree IS the flat model's flatten of the abstracted tree, so compositionality, "
+                  "holds after every step of every history of the MODEL's calls (append/extend/+=/insert/item and slice assignment and deletion/pop/remove/"
+                  "reverse/sort/*=/clear/set/set_default and every dict-protocol call, whether the model's call returns or raises, on any element of a tree of any depth) from any "
+                  "constructed tree — 'raising' is true of the model, whose raising paths are the rejections and prefix-keeping failures it implements; the model's keyed sort "
+                  "never raises (it sorts or answers `unsupported`: C08.Proofs.keyed_sort_only_refuses), so the CODE's path 'a comparison raises inside list.sort and the slots are "
+                  "left rearranged' is not an instance: there the invariant is re-established by the `finally: self._renumber()` of List.sort (9873cdc), which is proved separately "
+                  "for EVERY rearrangement (`sort_failure_any_permutation_dps`, `sort_failure_flatten_positional`; `sort_failure_old_stale`: refuted without the renumbering) and "
+                  "checked on the real code by the oracle (sort keys e.value / cmp-raise / cmp-mutate; clauses keys-are-positions, slots-named-by-position, sort-keeps-members); `flattenTree_eq_flat`: on such trees flattenTree IS the flat model's flatten of the abstracted tree, so compositionality, "
                   "keys-are-paths and uniqueness transfer (`tree_keys_are_paths`, `tree_flatten_compositional`); `flattenTree_stale_differs`: one stale slot name "
                   "refutes the unconditional statement. Tied to /repo twice: flat family (element states after random list-mutation histories, model recomputes "
                   "flatten) and tree-history family (the same history runs on the real library and on the Lean tree model; flatten() is compared after the "
@@ -389,7 +406,13 @@ class C07(Property):
                   '(c07_code_histories; inherited hypotheses: swf schema, HistOK = OpArgsWP + HistFresh/ArgsFresh, OpArgsDP) and still compared on every step; '
                   'the runner\'s walk bound 64 is covered when the tree is at most 64 levels deep (height <= fuel).')
     technique = 'Lean 4 proof (queue BFS = level order, permutation with per-child outputs); differential correspondence; Python oracle'
+    extra_proof_modules = ["Proofs.C09SortFailure"]
     theorems = [
+        # round m1: the failure path of List.sort (some rearrangement, then _renumber()) — for every permutation
+        "Flatland.C08.Proofs.keyed_sort_only_refuses",
+        "Flatland.C09.Proofs.sort_failure_any_permutation_dps",
+        "Flatland.C09.Proofs.sort_failure_flatten_positional",
+        "Flatland.C09.Proofs.sort_failure_old_stale",
         "Flatland.Flat.Proofs.flatten_compositional",
         "Flatland.Flat.Proofs.flatten_root_compositional",
         "Flatland.Flat.Proofs.flatten_level_order",
@@ -467,7 +490,7 @@ class C07(Property):
         "tree-history family: nothing is extracted — schema, construction route and calls go to the real library and to the Lean tree model alike (executor Flatland/TreeJson.lean, shared with C08/C09); histories the tree model does not cover (it answers 'unsupported') are oracle-only and tagged so",
     ]
     assumptions = ["the uniqueness THEOREMS need SepSafe names and separators (keys_nodup_needs_sepSafe: refuted without it, KF-C07-a); the oracle checks uniqueness for every separator; Array members are scalars (library assertion)",
-                   "history theorems: Element arguments handed to a call are themselves deep-positional subtrees (`OpArgsDPS`; true of everything the construction routes and earlier calls produce)",
+                   "history theorems: Element arguments handed to a call are themselves deep-positional subtrees (`Inv.OpArgsDP`; true of everything the construction routes and earlier calls produce)",
                    "code-rendering history theorems (c07_code_histories, code_keys_nodup_histories_partial) inherit C08's hypotheses: the schema declares every mapping key once (`swf`), Element arguments are internally well-parented (`OpArgsWP`) and fresh or detached (`HistFresh`/`ArgsFresh`: identities not in the tree, below the counter, kok); the walk bound is at least the height of the tree",
                    "uniqueness on trees: `distinctNames` (mapping children carry pairwise distinct, non-None names) and `arrLe1T`/`noArrayT` are decidable checks of the state reached, not derived from the history (distinctNames_not_invariant)"]
     rule = ("random schemas (Dict/SparseDict/List/Array/MultiValue/JoinedString/DateYYYYMMDD/scalars, depth<=4, hostile names and "
@@ -475,7 +498,9 @@ class C07(Property):
             ">=3 pairs emitted and at least one container below the root; distinct = canonical case JSON. "
             "Tree-history family (as many cases again): schemas whose keys pass through List slots (List of Dict with a nested List/Array/MultiValue, List of List, "
             "Dict of Lists, random trees of depth<=3) x 5 construction routes x 1-12 calls from the C08/C09 generators (all list-protocol and dict-protocol calls, "
-            "plain values / fresh Elements / detached Elements as arguments, 10% hostile) on any container of the tree x 8 separators; flatten() of the root is "
+            "plain values / fresh Elements / detached Elements as arguments, 10% hostile) on any container of the tree x 8 separators; 5 % of the tree histories (tag tree:sortfail:case, "
+            "oracle only) are built around sorts whose COMPARISON raises (g1common.gen_sort_failure_case: ints mixed with unadapted text sorted by e.value, key objects whose `<` raises "
+            "after k comparisons or appends to the list being sorted; root List, nested Lists, Lists inside Dicts; then append and a renumbering call); flatten() of the root is "
             "compared with the Lean tree model after every call; non-trivial = at least two calls changed what flatten() returns")
     quick_n = 2500
     thorough_n = 60000
@@ -532,7 +557,24 @@ class C07(Property):
                 "init": {"route": "ctor_value", "value": {"l": [10, 20, 30]}},
                 "ops": [{"t": 0, "s": {"op": "insert", "i": "1", "a": {"member": 0, "same": True}}},
                         {"t": 0, "s": {"op": "append", "a": {"v": 40}}}]}
-        return [joined_in_dict, renumber, stepped, negpop, overlap, rejected_alias, nested, kf_b]
+        # round m1 (defect repaired by 9873cdc): `[3, 1, 2, None, 0].sort(key=lambda e: e.value)` raises TypeError inside a
+        # COMPARISON; CPython leaves the slots as [1, 2, 3, None, 0] and the old List.sort skipped _renumber(): flatten()
+        # gave l_1_i, l_2_i, l_0_i for the members at positions 0, 1, 2.  Then an append (no renumbering: with the stale
+        # names a key occurred twice) and a renumbering call; a nested List sorted by a key object whose `<` raises
+        sort_cmp = {"family": "tree-history", "sep": "_", "schema": li, "nomodel": True,
+                    "init": {"route": "ctor_value", "value": {"l": [3, 1, 2, None, 0]}},
+                    "ops": [{"t": 0, "s": {"op": "sort", "key": "value", "rev": False}},
+                            {"t": 0, "s": {"op": "append", "a": {"v": 4}}},
+                            {"t": 0, "s": {"op": "sort", "key": "value", "rev": True}},
+                            {"t": 0, "s": {"op": "insert", "i": 0, "a": {"v": 9}}}]}
+        sort_nested = {"family": "tree-history", "sep": "_", "schema": lod, "nomodel": True,
+                       "init": {"route": "ctor_value", "value": {"l": [dval("b", [5, 4, 3, 2, 1]), dval("a", [3, None, 1]), dval("c", [])]}},
+                       "ops": [{"t": 4, "s": {"op": "sort", "key": "cmp-raise", "after": 2, "rev": False}},
+                               {"t": 0, "s": {"op": "sort", "key": "cmp-raise", "after": 1, "rev": True}},
+                               {"t": 5, "s": {"op": "sort", "key": "value", "rev": False}},
+                               {"t": 0, "s": {"op": "append", "a": {"v": dval("z", [7])}}},
+                               {"t": 0, "s": {"op": "reverse"}}]}
+        return [joined_in_dict, renumber, stepped, negpop, overlap, rejected_alias, nested, kf_b, sort_cmp, sort_nested]
 
     def generate(self, rng, n, tier):
         yield from self._generate_flat(rng, n, tier)
@@ -763,6 +805,13 @@ class C07(Property):
                     if moved == "changed":
                         t.append("tree:flatten-changed-by:" + ran)
                 prev = st["view"]
+            for o, st in zip(case["ops"], obs["steps"][1:]):
+                sp = o.get("s") or {}
+                if sp.get("op") == "sort" and sp.get("key") in G.SORT_CMP_FAILS and st["view"].get("_ran") == "seq:sort":
+                    exc = st["out"].get("exc") if isinstance(st["out"], dict) else None
+                    t.append("tree:sortfail:%s:%s" % (sp["key"], "raised-in-comparison:" + exc if exc else "sorted"))
+            if G.has_sort_failure(case):
+                t.append("tree:sortfail:case")
             t.append("tree:maxpairs=%d" % min(20, max(len(st["view"]["flatten"]) for st in obs["steps"])))
             return sorted(set(t))
         if "skip" in obs:
